@@ -232,6 +232,12 @@ def c14_program(rnd):
                                  ('conj', ('call', 'assertz', [('F', 'd', [('F', 's', [('V', 'N')])])]), 'fail')), True))
     clauses.append(('upd', [], 'tru'))
     clauses.append(('grow', [('V', 'X')], ('conj', ('call', 'd', [('V', 'X')]), ('call', 'assertz', [('F', 'd', [('F', 's', [('V', 'X')])])])), True))
+    # a suspended retract / enumeration whose not-yet-visited facts another goal removes (answers observed)
+    clauses.append(('rr', [('V', 'X')], ('conj', ('call', 'retract', [('F', 'd', [('V', 'X')])]), ('call', 'retractall', [('F', 'd', [('_',)])])), True))
+    clauses.append(('rr2', [('V', 'X'), ('V', 'Y')], ('conj', ('call', 'retract', [('F', 'd', [('V', 'X')])]), ('call', 'retract', [('F', 'd', [('V', 'Y')])])), True))
+    clauses.append(('er', [('V', 'X')], ('conj', ('call', 'd', [('V', 'X')]), ('call', 'retractall', [('F', 'd', [('_',)])])), True))
+    clauses.append(('era', [('V', 'X')], ('conj', ('call', 'd', [('V', 'X')]), ('conj', ('call', 'retract', [('F', 'd', [('V', 'Y')])]),
+                                          ('call', 'assertz', [('F', 'd', [('F', 'n', [('V', 'Y')])])]))), True))
     return clauses
 
 
@@ -251,6 +257,9 @@ def c14_history(rnd):
             ops.append(('query', 'drain', ('all',), []))
         elif r < 0.84:
             ops.append(('query', 'upd', ('all',), []))
+        elif r < 0.93:
+            m = rnd.choice(['rr', 'rr2', 'er', 'era'])
+            ops.append(('query', m, rnd.choice([('all',), ('all',), ('stop', 1), ('stop', 2)]), [v(0), v(1)][:2 if m == 'rr2' else 1]))
         else:
             ops.append(('query', 'grow', rnd.choice([('all',), ('stop', 2)]), [v(0)]))
         ops.extend(rb)
